@@ -22,14 +22,18 @@ CONSTANTS Reps,         \* replica ids, e.g. {1, 2}; replica 1 creates the graph
           AllowDup,     \* deliver commands the transaction already has
           AllowOrphan,  \* deliver commands whose parent the replica lacks
           AllowPoison,  \* deliver commands the policy rejects at origin (C06)
-          AllowFail     \* actions that fail after publishing (C07)
+          AllowFail,    \* actions that fail after publishing (C07)
+          AllowNoop,    \* commits of untouched transactions
+          BootAll,      \* TRUE: every replica starts with the graph (init committed)
+          ActWeight     \* simulation weight of starting an action on a multi-head replica
 
 VARIABLES rep,     \* [Reps -> [exists, committed, heads, stamp, q]]   q = collapse queue (<<>> = idle)
           tx,      \* [Reps -> [Txns -> [open, rs, base, acc]]]
           hist,    \* sequence of step records (S2I)
-          npoison  \* poison commands delivered so far
+          npoison, \* poison commands delivered so far
+          noise    \* no meaning: multiplies the successors of ActBegin (uniform simulation)
 
-vars == <<dag, rep, tx, hist, npoison>>
+vars == <<dag, rep, tx, hist, npoison, noise>>
 
 RECURSIVE AscSeq(_)
 AscSeq(S) == IF S = {} THEN <<>>
@@ -49,7 +53,8 @@ Record(rec) == hist' = Append(hist, rec)
 
 Init ==
   /\ dag = << [par |-> <<>>, kind |-> "init", prio |-> 0, rank |-> 0, lca |-> 1, op |-> "n"] >>
-  /\ rep = [r \in Reps |-> IF r = 1 THEN [exists |-> TRUE, committed |-> {1}, heads |-> {1}, stamp |-> 0, q |-> <<>>]
+  /\ noise = 0
+  /\ rep = [r \in Reps |-> IF r = 1 \/ BootAll THEN [exists |-> TRUE, committed |-> {1}, heads |-> {1}, stamp |-> 0, q |-> <<>>]
                                     ELSE [exists |-> FALSE, committed |-> {}, heads |-> {}, stamp |-> 0, q |-> <<>>]]
   /\ tx = [r \in Reps |-> [t \in Txns |-> NoTx]]
   /\ hist = <<>>
@@ -64,6 +69,7 @@ UsedRanks == {dag[c].rank : c \in Nodes}
 ActBegin(r) ==
   /\ Steps /\ rep[r].exists /\ Idle(r) /\ Len(dag) < MaxCmds
   /\ rep' = [rep EXCEPT ![r].q = SortedById(rep[r].heads)]
+  /\ noise' \in 1..(IF Cardinality(rep[r].heads) >= 2 THEN ActWeight ELSE 1)
   /\ UNCHANGED <<dag, tx, hist, npoison>>
 
 FindMerge(l, r) == {m \in Nodes : IsMerge(m) /\ ParSet(m) = {l, r}}
@@ -78,7 +84,7 @@ ActMerge(r) ==
           /\ dag' = Append(dag, [par |-> IF IdLess(l, rr) THEN <<l, rr>> ELSE <<rr, l>>, kind |-> "merge",
                                  prio |-> 0, rank |-> 0, lca |-> Lca({l, rr}), op |-> "n"])
           /\ rep' = [rep EXCEPT ![r].q = Append(rest, Len(dag) + 1)]
-  /\ UNCHANGED <<tx, hist, npoison>>
+  /\ UNCHANGED <<tx, hist, npoison, noise>>
 
 (* nodes of the collapse that r has not committed yet: the merges the fold wrote *)
 NewMerges(r, top) == {m \in AncSelf(top) : IsMerge(m)} \ rep[r].committed
@@ -106,7 +112,7 @@ ActPublish(r) ==
                                              committed |-> rep[r].committed \cup ms \cup {c},
                                              seq |-> ApplyOp(FactsAt(top), c, o).seq, k |-> ApplyOp(FactsAt(top), c, o).k,
                                              hello |-> <<1, rk>>, stamp |-> rep[r].stamp + 1]])
-  /\ UNCHANGED <<tx, npoison>>
+  /\ UNCHANGED <<tx, npoison, noise>>
 
 (* an action whose policy fails (after publishing j commands and writing facts): no trace (C07) *)
 ActFail(r) ==
@@ -114,7 +120,7 @@ ActFail(r) ==
   /\ \E j \in 0..1 :
        /\ rep' = [rep EXCEPT ![r].q = <<>>]
        /\ Record([op |-> "action_fail", r |-> r, j |-> j, res |-> "Rejected", view |-> View(r)])
-  /\ UNCHANGED <<dag, tx, npoison>>
+  /\ UNCHANGED <<dag, tx, npoison, noise>>
 
 --------------------------------------------------------------------------------
 (* add_commands *)
@@ -138,7 +144,7 @@ AddAll(x, batch, i, n, live) ==
        IF s.res \in {"skip", "added"} THEN AddAll(s.x, batch, i + 1, IF s.res = "added" THEN n + 1 ELSE n, live)
        ELSE [x |-> s.x, res |-> s.res, count |-> n]
 
-Batches(S) == UNION {[1..n -> S] : n \in 1..MaxBatch}
+Batches(S) == UNION {{b \in [1..n -> S] : AllowDup \/ \A i, j \in 1..n : i # j => b[i] # b[j]} : n \in 1..MaxBatch}
 
 (* the first touch of the graph reads the committed heads and the stamp *)
 Touch(r, t) == IF tx[r][t].rs = NoStamp
@@ -158,7 +164,7 @@ Deliver(r, t) ==
        /\ tx' = [tx EXCEPT ![r][t] = a.x]
        /\ Record([op |-> "deliver", r |-> r, t |-> t, cmds |-> batch, res |-> a.res, count |-> a.count,
                   tips |-> SortedById(TxTips(a.x))])
-  /\ UNCHANGED <<dag, rep, npoison>>
+  /\ UNCHANGED <<dag, rep, npoison, noise>>
 
 (* first contact: the graph does not exist locally; the first command must be its init *)
 DeliverInit(r, t) ==
@@ -173,7 +179,7 @@ DeliverInit(r, t) ==
                           tips |-> SortedById(TxTips(a.x))])
        ELSE /\ UNCHANGED <<rep, tx>>
             /\ Record([op |-> "deliver", r |-> r, t |-> t, cmds |-> batch, res |-> "InitError", count |-> 0, tips |-> <<>>])
-  /\ UNCHANGED <<dag, npoison>>
+  /\ UNCHANGED <<dag, npoison, noise>>
 
 (* a command the policy rejects at origin, child of a command the transaction has; then
    optionally a command naming the rejected one as parent (C06) *)
@@ -185,13 +191,13 @@ DeliverPoison(r, t) ==
        /\ npoison' = npoison + 1
        /\ Record([op |-> "poison", r |-> r, t |-> t, parent |-> p, pid |-> npoison + 1, orphan |-> orphan,
                   res |-> "Rejected", res2 |-> "NoSuchParent", tips |-> SortedById(TxTips(Touch(r, t)))])
-  /\ UNCHANGED <<dag, rep>>
+  /\ UNCHANGED <<dag, rep, noise>>
 
 Flush(r, t) ==
   /\ Steps /\ Idle(r) /\ tx[r][t].open /\ tx[r][t].acc # {}
   /\ hist # <<>> /\ hist[Len(hist)].op # "flush"
   /\ Record([op |-> "flush", r |-> r, t |-> t])
-  /\ UNCHANGED <<dag, rep, tx, npoison>>
+  /\ UNCHANGED <<dag, rep, tx, npoison, noise>>
 
 Commit(r, t) ==
   /\ Steps /\ Idle(r) /\ tx[r][t].open
@@ -208,14 +214,14 @@ Commit(r, t) ==
                 Record([op |-> "commit", r |-> r, t |-> t, res |-> "ok",
                         view |-> [exists |-> TRUE, heads |-> SortedById(H), committed |-> x.base \cup x.acc,
                                   seq |-> f.seq, k |-> f.k, hello |-> HelloId(H), stamp |-> rep[r].stamp + 1]])
-  /\ UNCHANGED <<dag, npoison>>
+  /\ UNCHANGED <<dag, npoison, noise>>
 
 (* commit of a transaction that never touched the graph: returns false *)
 CommitNoop(r, t) ==
-  /\ Steps /\ Idle(r) /\ rep[r].exists /\ ~tx[r][t].open
+  /\ AllowNoop /\ Steps /\ Idle(r) /\ rep[r].exists /\ ~tx[r][t].open
   /\ hist # <<>> /\ hist[Len(hist)].op # "commit"
   /\ Record([op |-> "commit", r |-> r, t |-> t, res |-> "noop", view |-> View(r)])
-  /\ UNCHANGED <<dag, rep, tx, npoison>>
+  /\ UNCHANGED <<dag, rep, tx, npoison, noise>>
 
 (* sync everything p has into r in one transaction and commit (makes converged pairs frequent) *)
 SyncAll(r, p) ==
@@ -236,7 +242,7 @@ SyncAll(r, p) ==
                         view |-> [exists |-> TRUE, heads |-> SortedById(H), committed |-> all,
                                   seq |-> f.seq, k |-> f.k, hello |-> HelloId(H),
                                   stamp |-> IF rep[r].exists THEN rep[r].stamp + 1 ELSE 1]])
-  /\ UNCHANGED <<dag, tx, npoison>>
+  /\ UNCHANGED <<dag, tx, npoison, noise>>
 
 Next ==
   \E r \in Reps :
